@@ -41,6 +41,10 @@ def gen_problem(rng, *, rows, cols, win, s, measure, disp, vmax=3, nbands=1, mas
             dmin = np.full((rows, cols), a)
         if mode in (2, 3):
             dmax = np.full((rows, cols), b)
+        if rng.rand() < 0.4:
+            # fractional bounds (a grid is a float raster): eighths, i.e. not multiples of 1/subpix for subpix <= 4
+            dmin = dmin - rng.randint(0, 8, size=(rows, cols)) / 8.0
+            dmax = dmax + rng.randint(0, 8, size=(rows, cols)) / 8.0
         d = ("grid", dmin, dmax)
     else:
         d = ("scalar", int(disp[0]), int(disp[1]))
@@ -90,7 +94,8 @@ def problem_json(prob, mirror=False):
     band = 1 if prob["band"] is None else prob["bands"].index(prob["band"]) + 1
     return {"rows": rows, "cols": cols, "win": prob["win"], "s": prob["s"], "measure": prob["measure"], "band": band,
             "L": enc_int(L), "R": enc_int(R), "mL": _mask3(mL, rows, cols), "mR": _mask3(mR, rows, cols),
-            "dmin": enc_int(dmin), "dmax": enc_int(dmax), "gmin": int(gmin), "gmax": int(gmax)}
+            "dmin8": enc_int(np.rint(np.asarray(dmin, dtype=np.float64) * 8)), "dmax8": enc_int(np.rint(np.asarray(dmax, dtype=np.float64) * 8)),
+            "gmin": int(gmin), "gmax": int(gmax)}
 
 
 def make_datasets(prob, row0=0, col0=0):
